@@ -192,15 +192,18 @@ Proof.
   intros H. unfold fm_get. destruct (assoc a m) as [p|] eqn:E; [|cbn; split; apply canon_zero].
   apply assoc_In in E. exact (H _ _ E).
 Qed.
+Lemma fm_canon_set m a p : fm_canon m -> canon (fst p) -> canon (snd p) -> fm_canon (assoc_set a p m).
+Proof.
+  intros Hm H1 H2 a' p' Hin. apply assoc_set_in in Hin. destruct Hin as [[_ Ep]|Hin]; [subst p'; auto|exact (Hm _ _ Hin)].
+Qed.
 Lemma fm_next_canon m v : fm_canon m -> canon (t_spice (v_trx v)) -> fm_canon (fm_next m v).
 Proof.
   intros Hm Hc. unfold fm_next. destruct (is_spice (v_trx v)); cbn [negb]; [|exact Hm].
   destruct (fm_get_canon (t_issuer (v_trx v)) m Hm) as [I1 I2].
-  destruct (fm_get_canon (t_receiver (v_trx v)) m Hm) as [R1 R2].
-  intros a p Hin. apply assoc_set_in in Hin. destruct Hin as [[_ Ep]|Hin].
-  - subst p. cbn. split; [apply supply_canon; assumption|exact R2].
-  - apply assoc_set_in in Hin. destruct Hin as [[_ Ep]|Hin]; [|exact (Hm _ _ Hin)].
-    subst p. cbn. split; [exact I1|apply supply_canon; assumption].
+  set (m1 := assoc_set (t_issuer (v_trx v)) _ m).
+  assert (Hm1 : fm_canon m1) by (apply fm_canon_set; cbn; [exact Hm|exact I1|apply supply_canon; assumption]).
+  destruct (fm_get_canon (t_receiver (v_trx v)) m1 Hm1) as [R1 R2].
+  apply fm_canon_set; cbn; [exact Hm1|apply supply_canon; assumption|exact R2].
 Qed.
 Lemma fold_fm_next_canon vs : forall m, fm_canon m -> (forall v, In v vs -> canon (t_spice (v_trx v))) ->
   fm_canon (fold_left fm_next vs m).
